@@ -217,6 +217,20 @@ fn gen_taxa(rng: &mut Rng, n: usize) -> Vec<String> {
             *x = format!("sp|{}:{}(x)", i, x);
         }
     }
+    // labels that START with a character that opens a comment or a header line in other formats (#, ;, >, %, //): a row is a row
+    if rng.chance(1, 7) {
+        for (i, x) in v.iter_mut().enumerate() {
+            if i % 2 == 0 || rng.chance(1, 2) {
+                *x = format!("{}{x}", ["#", ";", ">", "%", "//", "#!", "!"][(i + rng.below(7)) % 7]);
+            }
+        }
+    }
+    // names of exactly ten characters that are a prefix of another name (the classic layout cut names at ten columns)
+    if v.len() >= 2 && rng.chance(1, 8) {
+        let base = format!("Taxon_{:04}", rng.below(10000));
+        v[0] = base.clone();
+        v[1] = format!("{base}_melanogaster");
+    }
     // labels that begin and / or end with a double quote (a verbatim quoted Newick label is such a name): no white space, so legal
     if rng.chance(1, 7) {
         for (i, x) in v.iter_mut().enumerate() {
